@@ -54,6 +54,13 @@ HOSTS = [
     'mc', 'integrate', 'catalog_selected', 'catalog_inner',
 ]
 VARIABLE_ONLY_HOSTS = {'linutil_var'}
+# holes in which any real number (negative, zero, non-integer) is a valid operand: only these are used to check that a
+# correctly placed draw / integration variable, or a host nested in another host, is ACCEPTED
+ANY_REAL_HOLE = {'plus_l', 'plus_r', 'minus_l', 'minus_r', 'times_l', 'times_r', 'div_l', 'min_l', 'min_r', 'max_l', 'max_r',
+                 'and_l', 'and_r', 'or_l', 'or_r', 'neg', 'exp', 'sin', 'cos', 'powconst', 'normalcdf', 'derive',
+                 'eq_l', 'eq_r', 'ne_l', 'ne_r', 'le_l', 'le_r', 'ge_l', 'ge_r', 'lt_l', 'lt_r', 'gt_l', 'gt_r',
+                 'elem_entry_sel', 'elem_entry_var', 'condsum_term', 'condsum_cond', 'multsum_list', 'multsum_dict',
+                 'logit_util', 'logit_util_noav', 'mc', 'integrate', 'catalog_selected', 'catalog_inner'}
 IN_MC = {'mc'}
 IN_INT = {'integrate'}
 WRAPPERS = ['none', 'mc_w', 'int_w', 'cmp_w', 'elem_w', 'condsum_w', 'logit_w', 'catalog_w', 'multsum_w']
@@ -88,11 +95,11 @@ def gen_cases(tier, rng):
                 continue
             if fault == 'draws_outside_mc' and in_mc:
                 # correct placement: must be accepted
-                for entry in entries:
+                for entry in (entries if host in ANY_REAL_HOLE else []):
                     add(group='valid', host=host, wrap=wrap, fault='draws_inside_mc', entry=entry, db='plain', expect='number')
                 continue
             if fault == 'rv_outside_integral' and in_int:
-                for entry in entries:
+                for entry in (entries if host in ANY_REAL_HOLE else []):
                     add(group='valid', host=host, wrap=wrap, fault='rv_inside_integral', entry=entry, db='plain', expect='number')
                 continue
             if fault in ('extra_mc_without_draws', 'extra_nested_mc') and in_mc:
@@ -142,7 +149,8 @@ def gen_cases(tier, rng):
                 continue
             for entry in ('expr', 'biogeme'):
                 add(group='plant', host=inner, wrap='host:' + outer, fault=fault, entry=entry, db='plain', expect='BiogemeError')
-                add(group='valid', host=inner, wrap='host:' + outer, fault='none', entry=entry, db='plain', expect='number')
+                if outer in ANY_REAL_HOLE:
+                    add(group='valid', host=inner, wrap='host:' + outer, fault='none', entry=entry, db='plain', expect='number')
     # declared (non-default) missing-data code
     for name, expect in [('declared_code_read_likelihood', 'exception'), ('default_code_harmless_when_other_declared', 'value'),
                          ('declared_code_unread_column', 'value'), ('declared_code_weight_default_code_harmless', 'value'),
@@ -429,7 +437,7 @@ def execute(case):
             return bg.calculate_likelihood(bg.id_manager.free_betas_values, scaled=False)
         out = outcome(run)
         if case['expect'] == 'value':
-            out['want'] = expected_value_unselected(case)
+            out['want'] = expected_value_unselected(case) if case['wrap'] == 'none' else None
         return out
 
     if g == 'plant' and case['db'] == 'none':
@@ -606,7 +614,9 @@ def judge(case, out):
             return None
         return ('a read missing-data code fails with an error', 'an exception (or NaN for that observation)', got)
     if exp_ == 'value':
-        if o == 'number' and abs(out['value'] - out['want']) <= 1e-9 * max(1.0, abs(out['want'])):
+        if o == 'number' and out.get('want') is None and math.isfinite(out['value']):
+            return None         # under a wrapper only "evaluates to a finite number" is asserted
+        if o == 'number' and out.get('want') is not None and abs(out['value'] - out['want']) <= 1e-9 * max(1.0, abs(out['want'])):
             return None
         return ('missing-data code that is not read (or not the declared one) is harmless', out.get('want'), got)
     return ('harness', exp_, got)
@@ -674,6 +684,12 @@ def worker(path):
                 out = {'outcome': 'died', 'signal': -pr.returncode, 'msg': pr.stderr[-200:]}
         else:
             out = run_forked(c)
+            tries = 0
+            while out.get('outcome') == 'died' and tries < 3:
+                tries += 1
+                out = run_forked(c)
+            if tries:
+                out['died_retries'] = tries
         res.append([c['id'], out])
     print('\n' + json.dumps(res))
 
@@ -746,7 +762,8 @@ def main():
              'unselected Elem and ConditionalSum branch / unread column / non-default declared code (9 cases); 15 data faults; '
              '10 model functions x overlapping / leaving nests' % (len(cases), len(HOSTS), 'sampled' if tier == 'quick' else 'all 8'))
     print(json.dumps({'cases': len(cases), 'bound': bound, 'failures': (diverse + rest)[:10],
-                      'n_failures': len(failures), 'n_failure_classes': len(diverse)}))
+                      'n_failures': len(failures), 'n_failure_classes': len(diverse),
+                      'n_cases_retried_after_crash': sum(1 for o in results.values() if o.get('died_retries'))}))
     return 0 if not failures else 1
 
 
